@@ -2,6 +2,7 @@ import LentilVerif.Lemmas.Spectrum
 import LentilVerif.Lemmas.Units
 import LentilVerif.Lemmas.SpecArith
 import LentilVerif.Lemmas.SpecScale
+import LentilVerif.Lemmas.SpecValueScale
 /-! C13 — spectrum arithmetic is pointwise, commutative, unit-agnostic. Statements about `Model/SpecArith.lean`
 (tied to `Spectrum._ufunc` / `_interp_common` by the correspondence), for every binary operator `op`. -/
 namespace Lentil.C13
@@ -346,6 +347,75 @@ theorem ufuncU_comm_across_units (op : ℚ → ℚ → ℚ) (hc : ∀ a b, op a 
   rw [← hinv, (unit_handover_partial op s2 s1 _ fill).1]
   exact ufuncU_comm_same_units op hc (toWave s2.wu s1) s2 hA_wu hA_vu _ fill
 
+
+/-- value homogeneity: dividing BOTH operands' values (and the fill value) by the same number divides the result's values by it,
+for every operator that is homogeneous of degree one — addition, subtraction, maximum … (not multiplication: a product of two
+densities is not a density). The interpolation, the guard band and the fill are all linear in the values. -/
+theorem ufunc_value_scale (op : ℚ → ℚ → ℚ) (k : ℚ) (hop : ∀ a b, op (a / k) (b / k) = op a b / k) (s1 s2 : Spectrum)
+    (m : Sampling) (fill : ℚ) :
+    ufunc op (vscaleS k s1) (vscaleS k s2) m (fill / k) = (ufunc op s1 s2 m fill).map (vscaleS k) := by
+  simp only [ufunc, interpCommon_vscale]
+  cases interpCommon s1 s2 m fill with
+  | error e => rfl
+  | ok r =>
+    obtain ⟨g, v1, v2⟩ := r
+    simp only [Except.map, vscaleS, List.zipWith_map, List.map_zipWith, hop]
+
+/-- unit invariance for per-wavelength DENSITY spectra (`ufuncU`, each operand in its own wavelength unit), operators homogeneous
+of degree one (addition, subtraction): re-expressing both operands in any unit `u` — wavelengths × k, densities ÷ k — with the
+sampling and the fill value re-expressed alike (fill ÷ k: a fill value is a density in the left operand's unit; in particular
+fill 0 stays 0) gives the same result re-expressed in `u`. -/
+theorem unit_invariance_density (op : ℚ → ℚ → ℚ) (hop : ∀ k a b : ℚ, op (a / k) (b / k) = op a b / k) (s1 s2 : USpec) (f1 f2 : FUnit)
+    (h1 : s1.vu = some f1) (h2 : s2.vu = some f2) (u : WUnit) (m : Sampling) (fill : ℚ)
+    (hdw : ∀ dw, samplingOf m s1.wave (if s2.wu = s1.wu then s2 else toWave s1.wu s2).wave = some dw → dw ≠ 0) :
+    ufuncU op (toWave u s1) (toWave u s2) (m.scale (waveTo s1.wu u)) (fill / waveTo s1.wu u)
+      = (ufuncU op s1 s2 m fill).map (toWave u) := by
+  have hk := waveTo_pos s1.wu u
+  have hs2 : ∀ (t : USpec) (f : FUnit), t.vu = some f → ∀ a : WUnit, (toWave a t).wave = t.wave.map (· * waveTo t.wu a) ∧
+      (toWave a t).value = t.value.map (· / waveTo t.wu a) ∧ (toWave a t).wu = a ∧ (toWave a t).vu = some f := by
+    intro t f ht a; simp [toWave_eq, ht]
+  obtain ⟨w1, v1, _, _⟩ := hs2 s1 f1 h1 u
+  set s2' := (if s2.wu = s1.wu then s2 else toWave s1.wu s2) with hs2'
+  have hs2'w : s2'.wave = s2.wave.map (· * waveTo s2.wu s1.wu) ∧ s2'.value = s2.value.map (· / waveTo s2.wu s1.wu) := by
+    by_cases h : s2.wu = s1.wu
+    · simp only [hs2', h, if_true]; rw [← h, waveTo_self]; simp
+    · simp only [hs2', h, if_false]; exact ⟨(hs2 s2 f2 h2 s1.wu).1, (hs2 s2 f2 h2 s1.wu).2.1⟩
+  have e2 : (if (toWave u s2).wu = (toWave u s1).wu then toWave u s2 else toWave (toWave u s1).wu (toWave u s2)) = toWave u s2 := by
+    simp [(hs2 s1 f1 h1 u).2.2.1, (hs2 s2 f2 h2 u).2.2.1]
+  have hwave2 : (toWave u s2).wave = s2'.wave.map (· * waveTo s1.wu u) := by
+    rw [(hs2 s2 f2 h2 u).1, hs2'w.1, map_mul_mul, waveTo_cocycle]
+  have hval2 : (toWave u s2).value = s2'.value.map (· / waveTo s1.wu u) := by
+    rw [(hs2 s2 f2 h2 u).2.1, hs2'w.2, map_div_div, waveTo_cocycle]
+  simp only [ufuncU, e2]
+  have key := ufunc_scale op (waveTo s1.wu u) hk (vscaleS (waveTo s1.wu u) ⟨s1.wave, s1.value⟩)
+    (vscaleS (waveTo s1.wu u) ⟨s2'.wave, s2'.value⟩) m (fill / waveTo s1.wu u) hdw
+  rw [ufunc_value_scale op _ (hop _)] at key
+  simp only [scaleS, vscaleS] at key
+  rw [w1, v1, hwave2, hval2, key]
+  cases ufunc op ⟨s1.wave, s1.value⟩ ⟨s2'.wave, s2'.value⟩ m fill with
+  | error e => rfl
+  | ok r => simp [Except.map, toWave_eq, h1, (hs2 s1 f1 h1 u).2.2.1, (hs2 s1 f1 h1 u).2.2.2, scaleS, vscaleS, Gen.ufuncResultWaveUnitFromSelf, Gen.ufuncResultValueUnitFromSelf]
+
+/-- commutativity ACROSS units for per-wavelength density spectra of the same flux unit, fill 0, any commutative operator that is
+homogeneous of degree one (addition): b∘a, computed in b's wavelength unit with the sampling re-expressed in that unit and
+left↔right swapped, is a∘b re-expressed in b's unit (wavelengths × k, densities ÷ k) -/
+theorem ufuncU_comm_across_units_density (op : ℚ → ℚ → ℚ) (hc : ∀ a b, op a b = op b a)
+    (hop : ∀ k a b : ℚ, op (a / k) (b / k) = op a b / k) (s1 s2 : USpec) (f : FUnit)
+    (h1 : s1.vu = some f) (h2 : s2.vu = some f) (m : Sampling)
+    (hdw : ∀ dw, samplingOf m s1.wave (if s2.wu = s1.wu then s2 else toWave s1.wu s2).wave = some dw → dw ≠ 0) :
+    ufuncU op s2 s1 ((m.scale (waveTo s1.wu s2.wu)).swap) 0 = (ufuncU op s1 s2 m 0).map (toWave s2.wu) := by
+  have hinv := unit_invariance_density op hop s1 s2 f f h1 h2 s2.wu m 0 hdw
+  rw [toWave_self s2, zero_div] at hinv
+  have hA_wu : (toWave s2.wu s1).wu = s2.wu := by simp [toWave_eq, h1]
+  have hA_vu : (toWave s2.wu s1).vu = s2.vu := by simp [toWave_eq, h1, h2]
+  rw [← hinv, (unit_handover_partial op s2 s1 _ 0).1]
+  exact ufuncU_comm_same_units op hc (toWave s2.wu s1) s2 hA_wu hA_vu _ 0
+
+/-- addition is an instance of both hypotheses -/
+theorem add_comm_across_units_density (s1 s2 : USpec) (f : FUnit) (h1 : s1.vu = some f) (h2 : s2.vu = some f) (m : Sampling)
+    (hdw : ∀ dw, samplingOf m s1.wave (if s2.wu = s1.wu then s2 else toWave s1.wu s2).wave = some dw → dw ≠ 0) :
+    ufuncU (· + ·) s2 s1 ((m.scale (waveTo s1.wu s2.wu)).swap) 0 = (ufuncU (· + ·) s1 s2 m 0).map (toWave s2.wu) :=
+  ufuncU_comm_across_units_density _ (fun a b => _root_.add_comm a b) (fun k a b => (add_div a b k).symm) s1 s2 f h1 h2 m hdw
 
 /-- non-vacuity: nested ranges, fill 0 -/
 example : ufunc (· + ·) ⟨[1, 2, 3], [10, 20, 30]⟩ ⟨[2, 3, 4, 5], [1, 1, 1, 1]⟩ .min 0
